@@ -157,6 +157,24 @@ def check(run: Run) -> None:
         run.check(d.get(exec_attr) == ("attr", sp2, "execute_result_async"), "C12.R4", init, stmt_of(sup[0]), "root node carries self.execute_result_async (bound, not called)", f"root node's executor attribute is {show(d.get(exec_attr, ('const', None)))[:80]}, expected self.execute_result_async")
         run.check(d.get("_eds_object") == sp2, "C12.R4", init, stmt_of(sup[0]), "root node carries the dataset object", "root node does not carry _eds_object = self")
 
+    # ---------------- R7: the root node (with its executor and dataset object) is shared, never cloned
+    run.rule("C12.R7", "no copy.deepcopy of a stream's query AST: it would clone the dataset object and bind the executor to the clone")
+    n_dc = 0
+    for fi in m.funcs.values():
+        fa_ = None
+        for c in calls_in(fi):
+            if ast.unparse(c.func) in ("copy.deepcopy", "deepcopy") and c.args:
+                n_dc += 1
+                fa_ = fa_ or ctx.analysis(fi)
+                if not fa_.cfg.has_node(c):
+                    continue
+                t = strip_sites(fa_.term_of(c.args[0]))
+                from ..terms import contains as _contains
+
+                bad = _contains(t, lambda s: s[0] == "attr" and s[2] in ("_q_ast", "query_ast"))
+                run.check(not bad, "C12.R7", fi, stmt_of(c), "deepcopy is not applied to a stream's query AST", f"{fi.name} deep-copies {show(t)[:60]}: the copy's root node carries a *clone* of the dataset object and an executor bound to that clone, so value() no longer runs on the user's dataset (and its state / identity is lost)", "copy.copy of the top node (children shared)")
+    run.notes["deepcopy_sites"] = n_dc
+
     # ---------------- R5
     eff = effects_for(m)
     for fi in (va, ge):
